@@ -472,3 +472,10 @@ func chance(r *rand.Rand, pct int) bool { return r.Intn(100) < pct }
 func bytesReader(b []byte) *strings.Reader { return strings.NewReader(string(b)) }
 
 func yield() { runtime.Gosched() }
+
+// nameHash: a PRNG-independent choice per scenario name.
+func nameHash(name string) uint64 {
+	h := fnv.New64a()
+	h.Write([]byte(name))
+	return h.Sum64()
+}
